@@ -37,6 +37,7 @@ Next ==
             /\ Report("ServiceOK", ~e.panic => Cardinality(SetOf(e.chartypes)) = Len(e.chartypes))
        [] e.ev = "ctor-acc" ->
             /\ Report("Usable", ~e.panic /\ e.addable /\ e.services >= 1)
+            /\ Report("DefaultOK", e.inrange)       \* the values it stored lie within the ranges it declared
        [] OTHER -> TRUE
   /\ l' = l + 1
 Accepted == TLCGet("stats").diameter = Len(Trace) + 1
